@@ -211,9 +211,20 @@ func cuckooCase(c *Ctx, cfg cuckooCfg) {
 	replayOf := func() interface{} {
 		return map[string]interface{}{"config": cfg.String(), "pool": poolHex(pool), "history": hist}
 	}
+	// Redis: operations are routed through the creating handle and through handles re-attached
+	// from the metadata key at random points (handle-local caches must not matter: C09)
+	handles := []cuckooHandle{h}
+	pick := func() cuckooHandle { return handles[c.rng.Intn(len(handles))] }
 	for opn := 0; opn < nops; opn++ {
 		j := c.rng.Intn(len(pool))
 		e := pool[j]
+		if hr, isRedis := h.(cuckooRedis); isRedis && len(handles) < 3 && c.rng.Intn(8) == 0 {
+			if f2, err := gostatix.NewCuckooFilterRedisFromKey(hr.f.MetadataKey()); err == nil && f2 != nil {
+				handles = append(handles, cuckooRedis{f2})
+				c.branch("reattached-handle")
+			}
+		}
+		via := pick()
 		pre, err := cuckooSnap(h)
 		if err != nil {
 			c.fail([]string{"C02"}, "cuckoo-export", err.Error(), cfg.String())
@@ -233,7 +244,7 @@ func cuckooCase(c *Ctx, cfg cuckooCfg) {
 			}
 			c.op("Insert")
 			var ok bool
-			res := safely(func() { ok = h.Insert(e, destructive) })
+			res := safely(func() { ok = via.Insert(e, destructive) })
 			post, _ := cuckooSnap(h)
 			tag := "ok"
 			if res.panicked {
@@ -324,14 +335,14 @@ func cuckooCase(c *Ctx, cfg cuckooCfg) {
 				}
 			}
 		case r < 8: // remove: only live elements, or elements that Lookup reports absent
-			present, _ := h.Lookup(e)
+			present, _ := via.Lookup(e)
 			if live[j] == 0 && present {
 				continue // a false positive: removing it would be outside the documented usage
 			}
 			c.op("Remove")
 			var ok bool
 			var rerr error
-			res := safely(func() { ok, rerr = h.Remove(e) })
+			res := safely(func() { ok, rerr = via.Remove(e) })
 			if res.panicked || rerr != nil {
 				c.fail([]string{"C13"}, "cuckoo-remove-fails", fmt.Sprintf("%s: Remove failed: %v %v", cfg, res.panicVal, rerr), replayOf())
 				return
@@ -362,7 +373,7 @@ func cuckooCase(c *Ctx, cfg cuckooCfg) {
 			}
 		default:
 			c.op("Lookup")
-			ok, lerr := h.Lookup(e)
+			ok, lerr := via.Lookup(e)
 			if lerr != nil {
 				c.fail([]string{"C02"}, "cuckoo-lookup-fails", lerr.Error(), replayOf())
 				return
@@ -395,8 +406,8 @@ func cuckooCase(c *Ctx, cfg cuckooCfg) {
 		}
 		for jj := range pool {
 			if live[jj] > 0 {
-				if ok, _ := h.Lookup(pool[jj]); !ok {
-					c.fail([]string{"C02", "C08"}, key("cuckoo-false-negative"),
+				if ok, _ := pick().Lookup(pool[jj]); !ok {
+					c.fail([]string{"C02", "C08", "C09"}, key("cuckoo-false-negative"),
 						fmt.Sprintf("%s: element %d inserted %d more times than removed is reported absent after op %d", cfg, jj, live[jj], opn),
 						map[string]interface{}{"config": cfg.String(), "pool": poolHex(pool), "history": hist, "element": jj})
 					return
